@@ -193,6 +193,9 @@ func NullScalar(t ScalarType) Scalar {
  * -------------------------------------------------------------------------- */
 
 func NewConstScalar(t ScalarType, value float64) ConstScalar {
+  if f, ok := constScalarRegistry[t]; ok {
+    return f(value)
+  }
   f, ok := scalarRegistry[t]
   if !ok {
     panic(fmt.Sprintf("invalid scalar type `%v'", t))
